@@ -6,6 +6,7 @@ CONSTANTS
   MaxDepth = 2
   MaxBlock = 2
   Kinds <- AllKinds
+  Tiny = FALSE
   Rich = FALSE
 INVARIANT DesignFaithful
 INVARIANT DeviationsExplain
